@@ -7,7 +7,10 @@ HERE = os.path.dirname(os.path.abspath(__file__))
 BASE_CMD = ("cd /repo && /venv/bin/python -m pytest -ra -q -p no:cacheprovider --timeout=900 "
             "--continue-on-collection-errors")
 
-TECH = 'bounded symbolic execution of the real ODL code on solver variables (symnp engine) + z3 SMT queries per path; counterexamples replayed on the unpatched code'
+TECH = ('bounded symbolic execution of the real ODL code on solver variables (symnp engine); per path and assertion an SMT '
+        'obligation decided by z3 (after sound pre-passes: term identity, polynomial normal form modulo the axioms of '
+        'sqrt/sin/cos, abstraction of applications); counterexamples only from z3, replayed on the unpatched code in a '
+        'fresh process; thorough tier: sampled z3 unsat verdicts re-checked by cvc5')
 
 CHECKS = {
     'C13': dict(
@@ -156,7 +159,7 @@ def main():
             'add_only': True,
         },
         'engines': [{'name': 'symnp', 'path': 'symnp/', 'serves_properties': sorted(CHECKS),
-                     'kind_free_text': 'path-forking symbolic execution of the real Python/NumPy code on arrays of solver variables; z3 5.1 decides each obligation; concrete replay on unpatched code'}],
+                     'kind_free_text': 'path-forking symbolic execution of the real Python/NumPy code on arrays of solver variables; z3 5.1 decides each obligation and every branch infeasibility (feasible branch sides may be witnessed by a pool of concrete points); library leaves (BLAS, numpy.fft, FFTW, PyWavelets/Haar, numpy.vectorize) replaced by their documented relations and compared with the real libraries on every path; concrete replay on unpatched code; cvc5 second opinion in the thorough tier'}],
         'checks': checks,
         'not_applicable': na,
         'notes': 'Exit codes: 0 held on everything explored (KNOWN-FINDING / INCONCLUSIVE lines possible), 1 replay-confirmed unlisted violation, 2 machinery fault. known_findings.json lists recorded and fixed defects.',
